@@ -38,8 +38,9 @@ Record fstate := mkst {
   s_latest : ydata;    (* the window given to the latest fit / update *)
   s_merged : ydata;    (* _y of a real sktime forecaster: combine_first of everything since fit *)
   s_cnt : Z;           (* windows received since (and including) the last fit *)
-  s_xsum : Q }.        (* sum of the exogenous column of the latest window *)
-Definition st0 : fstate := mkst [] [] [] 0 0.
+  s_xsum : Q;          (* sum of the exogenous column of the latest window *)
+  s_boost : Z }.       (* the `boost` keyword of the last fit (fit_params), 0 when not given *)
+Definition st0 : fstate := mkst [] [] [] 0 0 0.
 
 Definition xsum (x : xdata Q) : Q := match x with Some l => qsum (map snd l) | None => 0%Q end.
 Definition first_time (d : ydata) : Z := fst (hd (0, 0%Q) d).
@@ -58,7 +59,8 @@ Definition forecast (f : fcspec) (s : fstate) (fhabs : list Z) (x : xdata Q) : y
   combine fhabs match f with
   | FDouble a b c d e =>
       let base := (inject_Z a * last_val (s_latest s) + inject_Z b * qsum (map snd (s_latest s))
-                   + inject_Z c * first_val (s_first s) + inject_Z (d * s_cnt s) + s_xsum s)%Q in
+                   + inject_Z c * first_val (s_first s) + inject_Z (d * s_cnt s) + s_xsum s
+                   + inject_Z (s_boost s))%Q in
       map (fun t => (base + inject_Z (e * (t - cut))
                      + match x with Some l => xlookup l t | None => 0 end)%Q) fhabs
   | FNaive false _ => map (fun _ => last_val (s_merged s)) fhabs
@@ -71,8 +73,10 @@ Definition forecast (f : fcspec) (s : fstate) (fhabs : list Z) (x : xdata Q) : y
 Definition fstep (f : fcspec) (so : fstate * ydata) (c : call Q) : fstate * ydata :=
   let s := fst so in
   match c with
-  | Fit y x _ => (mkst y y y 1 (xsum x), [])
-  | Update y x => (mkst (s_first s) y (combine_first y (s_merged s)) (s_cnt s + 1) (xsum x), [])
+  | Fit y x _ => (mkst y y y 1 (xsum x) 0, [])
+  | FitP y x _ p => (mkst y y y 1 (xsum x) p, [])
+  | Update y x =>
+      (mkst (s_first s) y (combine_first y (s_merged s)) (s_cnt s + 1) (xsum x) (s_boost s), [])
   | Predict fhabs x => (s, forecast f s fhabs x)
   end.
 Definition frun (f : fcspec) (h : list (call Q)) : fstate * ydata := fold_left (fstep f) h (st0, []).
@@ -87,7 +91,11 @@ Record impl_row := mkir {
 Inductive case :=
   | CEval (sp : splitter) (off : Z) (ys : list Q) (xs : option (list Q)) (st : strategy)
           (m : mspec) (f : fcspec)
-          (o : option (list impl_row * option (list (call Q)))).   (* None: ValueError *)
+          (o : option (list impl_row * option (list (call Q))))    (* None: ValueError *)
+  (* evaluate(..., fit_params=fp): None = no / empty fit_params, Some k = {"boost": k} *)
+  | CEvalP (fp : option Z) (sp : splitter) (off : Z) (ys : list Q) (xs : option (list Q))
+           (st : strategy) (m : mspec) (f : fcspec)
+           (o : option (list impl_row * option (list (call Q)))).
 
 Definition zlist_eqb (a b : list Z) : bool :=
   (length a =? length b)%nat && forallb (fun p => fst p =? snd p) (combine a b).
@@ -106,6 +114,7 @@ Definition call_eqb (a b : call Q) : bool :=
   | Fit y x f, Fit y' x' f' => ydata_eqb y y' && xdata_eqb x x' && zlist_eqb f f'
   | Update y x, Update y' x' => ydata_eqb y y' && xdata_eqb x x'
   | Predict f x, Predict f' x' => zlist_eqb f f' && xdata_eqb x x'
+  | FitP y x f p, FitP y' x' f' p' => ydata_eqb y y' && xdata_eqb x x' && zlist_eqb f f' && (p =? p')
   | _, _ => false
   end.
 Definition trace_eqb (a b : list (call Q)) : bool :=
@@ -129,16 +138,27 @@ Definition model_eval (sp : splitter) (off : Z) (ys : list Q) (xs : option (list
            (match xs with Some l => Some (series l) | None => None end)
            (respond_of f) (cutoff_of f) (metric_of m) sp st.
 
+Definition model_eval_fp (fp : option Z) (sp : splitter) (off : Z) (ys : list Q)
+           (xs : option (list Q)) (st : strategy) (m : mspec) (f : fcspec)
+  : res (list row * list (call Q)) :=
+  evaluate_fp Q (fun p => p + off) (series ys)
+              (match xs with Some l => Some (series l) | None => None end)
+              (respond_of f) (cutoff_of f) (metric_of m) fp sp st.
+
+Definition agree (m : res (list row * list (call Q)))
+           (o : option (list impl_row * option (list (call Q)))) : bool :=
+  match m, o with
+  | Err, None => true
+  | Ok (rows, tr), Some (irows, itr) =>
+      rows_agree rows irows &&
+      match itr with Some t => trace_eqb tr t | None => true end
+  | _, _ => false
+  end.
+
 Definition check (c : case) : bool :=
   match c with
-  | CEval sp off ys xs st m f o =>
-      match model_eval sp off ys xs st m f, o with
-      | Err, None => true
-      | Ok (rows, tr), Some (irows, itr) =>
-          rows_agree rows irows &&
-          match itr with Some t => trace_eqb tr t | None => true end
-      | _, _ => false
-      end
+  | CEval sp off ys xs st m f o => agree (model_eval sp off ys xs st m f) o
+  | CEvalP fp sp off ys xs st m f o => agree (model_eval_fp fp sp off ys xs st m f) o
   end.
 
 Fixpoint mism (cs : list (Z * case)) : list Z :=
